@@ -664,6 +664,49 @@ func extractC14() *lean {
 	}
 	l.def("dagStoreLookups", "List String", leanStrList(kvArgs), kvArgs)
 
+	// state.saveEvent / state.notify: what the Range callback returns (saveEvent must stop at and return the first Save
+	// error; notify visits everybody), and what saveEvent returns
+	for _, fn := range []string{"saveEvent", "notify"} {
+		var rets []string
+		if fd := funcDecl(sf, fn); fd != nil {
+			ast.Inspect(fd, func(n ast.Node) bool {
+				if r, ok := n.(*ast.ReturnStmt); ok {
+					var rs []string
+					for _, x := range r.Results {
+						rs = append(rs, c14Expr(x))
+					}
+					rets = append(rets, "return "+strings.Join(rs, ", "))
+				}
+				if as, ok := n.(*ast.AssignStmt); ok && len(as.Lhs) == 1 && exprString(as.Lhs[0]) == "err" {
+					rets = append(rets, "err "+as.Tok.String()+" "+c14Expr(as.Rhs[0]))
+				}
+				return true
+			})
+		} else {
+			rets = []string{"MISSING"}
+		}
+		l.def(fn+"Body", "List String", leanStrList(rets), rets)
+	}
+	// state.Add: the presence check is repeated as the first statement inside the write transaction
+	addRecheck := false
+	if fd := funcDecl(sf, "Add"); fd != nil {
+		ast.Inspect(fd, func(n ast.Node) bool {
+			ce, ok := n.(*ast.CallExpr)
+			if !ok || exprString(ce.Fun) != "s.db.Write" || len(ce.Args) < 2 {
+				return true
+			}
+			if fl, ok := ce.Args[1].(*ast.FuncLit); ok && len(fl.Body.List) > 0 {
+				if is, ok := fl.Body.List[0].(*ast.IfStmt); ok && c14Expr(is.Cond) == "s.graph.isPresent(tx, transaction.Ref())" && len(is.Body.List) == 1 {
+					if r, ok := is.Body.List[0].(*ast.ReturnStmt); ok && len(r.Results) == 1 && exprString(r.Results[0]) == "nil" {
+						addRecheck = true
+					}
+				}
+			}
+			return true
+		})
+	}
+	l.def("addRechecksPresenceFirstInWriteTx", "Bool", map[bool]string{true: "true", false: "false"}[addRecheck], addRecheck)
+
 	// the per-transaction marker: shelf and key
 	var markerKeys []string
 	for _, fn := range []string{"isPayloadEventSaved", "markPayloadEventSaved"} {
